@@ -6,8 +6,11 @@ ROOT = os.path.dirname(os.path.dirname(os.path.abspath(__file__)))
 def main():
     props = {}
     for p in sorted(glob.glob(os.path.join(ROOT, "props", "C*.json"))):
-        d = json.load(open(p))
-        props[d["id"]] = d
+        try:
+            d = json.load(open(p))
+            props[d["id"]] = d
+        except Exception as e:  # half-written file of a property still under construction
+            print("skipping", p, e)
     all_ids = [json.loads(l)["id"] for l in open(os.path.join(ROOT, "properties.jsonl")) if l.strip()]
     # lakefile
     lf = ['name = "NetVerif"', 'version = "0.1.0"', 'defaultTargets = ["NetVerif"]', '',
@@ -72,6 +75,24 @@ def main():
     }
     with open(os.path.join(ROOT, "MANIFEST.json"), "w") as f:
         json.dump(man, f, indent=1)
+        f.write("\n")
+    # known findings: merged from props/Cxx.findings.json fragments (+ the 'fixed' list kept by hand)
+    kf_path = os.path.join(ROOT, "known_findings.json")
+    kf = {"findings": [], "fixed": []}
+    if os.path.exists(kf_path):
+        try:
+            kf["fixed"] = json.load(open(kf_path)).get("fixed", [])
+        except Exception:
+            pass
+    for p in sorted(glob.glob(os.path.join(ROOT, "props", "C*.findings.json"))):
+        try:
+            for ent in json.load(open(p)):
+                if ent.get("property") in props and props[ent["property"]].get("status") == "ready":
+                    kf["findings"].append(ent)
+        except Exception as e:
+            print("skipping", p, e)
+    with open(kf_path, "w") as f:
+        json.dump(kf, f, indent=1)
         f.write("\n")
     print("checks:", len(checks), "not_applicable:", len(na))
 
